@@ -12,7 +12,7 @@ EXPLANATION = ("O1 in the operation issue point, when the handle's timeout is So
 TRUSTED = ['tokio::time::timeout semantics', 'tokio scheduler']
 UNDECIDED = ['that the timer fires at the deadline', 'all orderings of arrival vs deadline']
 ASSUMPTIONS = []
-SHARED = [('C01', ('R5.',), 'O4.late-reply-discarded'), ('C16', ('A2.splices-new-stream',), 'O5.scrub-names-the-running-search')]      # after the scrub the ID is routed nowhere: an unmatched frame must reach nobody
+SHARED = [('C01', ('R5.',), 'O4.late-reply-discarded'), ('C16', ('A2.splices-new-stream', 'A2.follow-up-handle'), 'O5.paged-follow-up-keeps-timeout-and-id')]      # after the scrub the ID is routed nowhere: an unmatched frame must reach nobody
 
 TIMEOUT = 'tokio::time::timeout::timeout'
 SELF = ('param', 'self')
